@@ -63,7 +63,7 @@ func runC11(r *vf.Run) {
 		"texts mix literals and placeholders (repeated, out of order, gaps), argument lists are exact, too few or too many; statements are executed 1-6 times with different arguments; " +
 		"distinct_nontrivial = distinct (query text, argument list, path) triples")
 	r.Assume("arguments are strings and integers", "column names are identifiers of the query language")
-	n := r.Pick(14, 80)
+	n := r.Pick(60, 300)
 	var ids []string
 	for i := 0; i < n; i++ {
 		ids = append(ids, fmt.Sprintf("ds%03d", i))
